@@ -160,7 +160,14 @@ def gen_codec_facts():
     d = inspect.signature(ct.FixedSizeString).parameters["len_type_"].default
     if not (isinstance(d, type) and getattr(dt, d.__name__, None) is d):
         raise GenError("FixedSizeString: default len_type_ is not an exported type class")
-    out.append(f"Definition fss_default_len_type : list Z := {zs(d.__name__)}.\n\n")
+    out.append(f"Definition fss_default_len_type : list Z := {zs(d.__name__)}.\n")
+    # FixedSizeString(size_, len_type_=UDINT, capacity_=None): the model's TFixedStr carries (size, len type, capacity)
+    params = list(inspect.signature(ct.FixedSizeString).parameters.items())
+    if [n for n, _ in params] != ["size_", "len_type_", "capacity_"] or params[2][1].default is not None:
+        raise GenError("FixedSizeString: signature is not (size_, len_type_=..., capacity_=None)")
+    if (fss.size, fss.capacity) != (1, 1) or ct.FixedSizeString(5, dt.UINT, 3).capacity != 3:
+        raise GenError("FixedSizeString: size/capacity class attributes")
+    out.append("Definition fss_has_capacity : bool := true.\n\n")
     out.append("(* member lists of the Struct instances in custom_types.py: (name, (type class, parameter)) *)\n")
     for cname, coqname in (("Revision", "revision_members"), ("ModuleIdentityObject", "module_identity_members"),
                            ("ListIdentityObject", "list_identity_members")):
